@@ -10,7 +10,7 @@ PROPERTY = 'C09'
 LEVEL = 'exploration'
 RULE = ('Hypothesis: 2 SPs each with 1-4 AssertionConsumerService, 0-3 SingleLogoutService, 0-2 ManageNameIDService endpoints over POST/Redirect/Artifact/PAOS/SOAP with locations '
         'from a pool of look-alike URLs (case, trailing slash, query, port, scheme, other SP), indexes and isDefault x request {AuthnRequest, LogoutRequest, ManageNameIDRequest} with '
-        'consumer URL {registered, registered for another binding, near miss, other SP\'s, absent}, index {registered, unknown, absent}, ProtocolBinding {given, absent, unsupported}, '
+        'consumer URL {registered, registered for another binding, near miss, other SP\'s, scheme-less / relative / non-http(s) URI, absent}, index {registered, unknown, absent}, ProtocolBinding {given, absent, unsupported}, '
         'issuer {known, other SP, unknown}, explicit bindings argument or not, answer derived through response_args / pick_binding(request=) / pick_binding(request=, entity_id=); sequences of 1-4 requests on one IdP. '
         'Non-trivial = URL or index supplied, or issuer unknown; distinct = distinct case.')
 ASSUMPTIONS = ['reference model = the spec dictionaries the metadata XML is rendered from (harness templates, not the library writer)',
@@ -23,6 +23,10 @@ URLS = ['https://sp1.example.org/acs', 'https://sp1.example.org/acs/', 'https://
 SPS = ['https://sp1.example.org/sp', 'https://sp2.example.org/sp']
 
 
+# supplied consumer URLs that are legal xs:anyURI values but not http(s) URLs (never registered by any SP here)
+ODD_URLS = ['//evil.example.org/acs', 'evil.example.org/acs', '/acs/post', 'javascript:alert(1)', 'data:text/html,x', 'ftp://sp1.example.org/acs', 'urn:x:acs', 'HTTPS://sp1.example.org/acs', ' https://sp1.example.org/acs']
+
+
 def case_strategy():
     from hypothesis import strategies as st
     url = st.sampled_from(URLS)
@@ -33,7 +37,7 @@ def case_strategy():
         return st.lists(st.tuples(b, url, st.one_of(st.none(), st.integers(0, 5)), st.one_of(st.none(), st.booleans())).map(list), min_size=lo, max_size=hi)
     sp = st.fixed_dictionaries({'acs': eps(acs_b, 1, 4), 'slo': eps(slo_b, 0, 3), 'mnid': eps(slo_b, 0, 2)})
     req = st.fixed_dictionaries({'typ': st.sampled_from(['authn', 'authn', 'authn', 'logout', 'mnid']), 'issuer': st.sampled_from([0, 0, 0, 1, 'unknown']),
-                                 'url': st.one_of(st.none(), url, st.just('@registered'), st.just('@other-sp')), 'index': st.one_of(st.none(), st.none(), st.integers(0, 7), st.just('@registered'), st.just('@registered')),
+                                 'url': st.one_of(st.none(), url, st.just('@registered'), st.just('@other-sp'), st.sampled_from(ODD_URLS)), 'index': st.one_of(st.none(), st.none(), st.integers(0, 7), st.just('@registered'), st.just('@registered')),
                                  'protocol_binding': st.one_of(st.none(), st.none(), st.just('@registered'), st.sampled_from(sorted(B)), st.just('urn:unsupported:binding')),
                                  'bindings': st.one_of(st.none(), st.none(), st.none(), st.lists(st.sampled_from(sorted(B)), min_size=1, max_size=4, unique=True)),
                                  'both': st.booleans(),
